@@ -11,7 +11,7 @@ mapping passed as factors).
 from __future__ import annotations
 
 import ast
-from typing import Dict, List, Optional, Set, Tuple
+from typing import Any, Dict, List, Optional, Set, Tuple
 
 from ..absint import DictV, Event, GroupV, OpaqueV, Unsupported
 from ..calls import Reach, Resolver
@@ -113,12 +113,51 @@ def _guard_facts(fn: ast.AST, subst: Optional[Dict[str, str]] = None) -> List[Tu
     return out
 
 
+def _inline_quotient_locals(fn: ast.AST) -> ast.AST:
+    """`q = a // b` ... `if q != a / b: raise` ... `int(q)`: a local that only names a floor division is replaced by
+    the division (on a copy), so that the guard and the use are recognised in their usual form."""
+    import copy as _copy
+    single: Dict[str, ast.AST] = {}
+    counts: Dict[str, int] = {}
+    for n in ast.walk(fn):
+        if isinstance(n, (ast.Assign, ast.AugAssign, ast.AnnAssign, ast.For)):
+            tg = n.targets if isinstance(n, ast.Assign) else [n.target]
+            for t in tg:
+                for x in ast.walk(t):
+                    if isinstance(x, ast.Name):
+                        counts[x.id] = counts.get(x.id, 0) + 1
+        if isinstance(n, ast.Assign) and len(n.targets) == 1 and isinstance(n.targets[0], ast.Name) and isinstance(n.value, ast.BinOp) \
+                and isinstance(n.value.op, ast.FloorDiv):
+            single[n.targets[0].id] = n.value
+    single = {k: v for k, v in single.items() if counts.get(k) == 1 and not any(counts.get(x.id, 0) for x in ast.walk(v) if isinstance(x, ast.Name))}
+    if not single:
+        return fn
+    new = _copy.deepcopy(fn)
+
+    class _Sub(ast.NodeTransformer):
+        def visit_Name(self, n: ast.Name) -> ast.AST:
+            if isinstance(n.ctx, ast.Load) and n.id in single:
+                return ast.copy_location(_copy.deepcopy(single[n.id]), n)
+            return n
+
+        def visit_Assign(self, n: ast.Assign) -> Any:
+            if len(n.targets) == 1 and isinstance(n.targets[0], ast.Name) and n.targets[0].id in single:
+                return ast.copy_location(ast.Pass(), n)
+            return self.generic_visit(n)
+    new = _Sub().visit(new)
+    ast.fix_missing_locations(new)
+    for parent in ast.walk(new):
+        for ch in ast.iter_child_nodes(parent):
+            ch._parent = parent  # type: ignore[attr-defined]
+    return new
+
+
 def check_root_guard(rep: Report, prog: Program, resolver: Resolver, qual: str) -> None:
     """R01.2: every floor division feeding the constructor is dominated by a raising
     exactness test over an iteration domain at least as large (the test may live in a
     helper the guard calls)."""
     fi = prog.func(qual)
-    fn = fi.node
+    fn = _inline_quotient_locals(fi.node)
     cfg = CFG(fn)
     dom = cfg.dominators()
     # guards: If statements that end in raise, with the exactness facts their test implies
